@@ -17,7 +17,7 @@ from . import core, passes, impl, project, render, execrun
 PROP = 'C11'
 CONFIGS = {
     'quick': ([('mixed', ('H_X', 'M_X', 'T_X', 'O_X', 2, 3), 24)], 3),
-    'thorough': ([('mixed', ('H_X', 'M_X', 'T_X', 'O_X', 3, 3), 300)], 4),
+    'thorough': ([('mixed', ('H_X', 'M_X', 'T_X', 'O_X', 3, 3), 100)], 4),
 }
 LIB_CFG = ('SPECIFICATION Spec\nCONSTANTS\n Transforms = {"A", "L", "M", "S", "T"}\n Analyses = {"U", "G", "E", "O"}\n'
            ' MaxLen = %d\n Chain = FALSE\nINVARIANT Emit\nPROPERTY InputUnchanged\n')
@@ -99,6 +99,12 @@ def main(tier):
     wd = core.workdir(PROP)
     cfgs, maxlen = CONFIGS[tier]
     hists = histories(rep, wd, maxlen)
+    # memory: every call record carries a snapshot of the whole circuit; all histories up to length 3 are kept, the
+    # (thousands of) length-4 histories are sampled
+    long_ = [h for h in hists if len(h) > 3]
+    if len(long_) > 1500:
+        hists = [h for h in hists if len(h) <= 3] + rng.sample(long_, 1500)
+        rep.cov['exhaustive'] = False
     jobs = []
     for name, consts, budget in cfgs:
         progs = passes.enumerate_programs(rep, name, passes.ast_cfg(*consts), wd, budget=budget)
